@@ -35,10 +35,10 @@ DEPTHS = list(range(0, MAXDEPTH + 1))
 
 BOUNDS = {
     "quick": dict(Scope="q", FullDepth=3, Levels=1, MaxN1=1, MaxN2=2,
-                  n_random_pts=1500, n_rs_pts=120, cover_conc=6, cover_rand=160, cover_rs_rand=40,
+                  n_random_pts=1500, n_rs_pts=120, cover_conc=6, cover_rand=160, cover_rs_rand=40, cover_star=400, pairs_star=300,
                   pairs_rand=500, pairs_rs_rand=200, cap_cover=2e5, cap_pairs=3e4, cap_span=2e4),
     "thorough": dict(Scope="t", FullDepth=5, Levels=2, MaxN1=1, MaxN2=2,
-                     n_random_pts=40000, n_rs_pts=414, cover_conc=10, cover_rand=3000, cover_rs_rand=600,
+                     n_random_pts=40000, n_rs_pts=414, cover_conc=10, cover_rand=3000, cover_rs_rand=600, cover_star=8000, pairs_star=6000,
                      pairs_rand=10000, pairs_rs_rand=4000, cap_cover=2e6, cap_pairs=6e4, cap_span=6e4),
 }
 LIST_MAX = 48          # intersect lists up to this length are written out and re-projected by TLC
@@ -159,7 +159,7 @@ def cover_depths(case, eps, cap):
     return [d for d in range(1, 13) if hl.trixels_in_cap(r, d) <= cap]
 
 
-def concretise_cover(case, n, rng, cap):
+def concretise_cover(case, n, rng, cap, star=None):
     """n concretisations (circle, eps, depth) of one abstract circle"""
     out = []
     epss = cover_eps_choices(case)
@@ -173,6 +173,8 @@ def concretise_cover(case, n, rng, cap):
         depth = ds[-1] if k % 3 == 0 else rng.choice(ds)
         circle = (k + rng.randrange(len(hl.CIRCLES))) % len(hl.CIRCLES) if case["lat"] == "gc" else 0
         out.append({"abs": case, "circle": circle, "eps": eps, "depth": depth, "incl_kw": k % 2 == 0})
+        if star is not None:
+            out[-1]["star"] = star
     return out
 
 
@@ -181,8 +183,12 @@ def run_cover(job):
     lat = c["lat"]
     eps = hl.EPS[job["eps"]] if lat == "gc" else None
     circle = hl.CIRCLES[job["circle"]]
-    (cra,), (cdec,) = hl.points(lat, [c["c"]], circle, eps)
-    pra, pdec = hl.points(lat, c["probes"], circle, eps)
+    if job.get("star"):
+        cra, cdec = job["star"]["centre"]
+        pra, pdec = hl.star_points(job["star"]["centre"], job["star"]["dirs"], c["probes"], eps)
+    else:
+        (cra,), (cdec,) = hl.points(lat, [c["c"]], circle, eps)
+        pra, pdec = hl.points(lat, c["probes"], circle, eps)
     r = hl.radius_deg(lat, c["rad"], eps)
     d = job["depth"]
     rec = {"kind": "cover", "lat": lat, "err": "none", "depth": d, "c": c["c"], "rad": c["rad"], "probes": c["probes"],
@@ -244,6 +250,71 @@ def rand_cover_cases(rng, n, lat, rs_pts):
     return out
 
 
+def rand_centre(rng):
+    """any sky position: general, poles, octant corners and edges, the seam, and next to them"""
+    k = rng.random()
+    if k < 0.45:
+        return [rng.uniform(0.0, 360.0), float(np.degrees(np.arcsin(rng.uniform(-1.0, 1.0))))]
+    if k < 0.6:
+        return [rng.choice([0.0, 90.0, 180.0, 270.0, 45.0, 360.0]), rng.choice([0.0, 90.0, -90.0, 45.0, 35.264389682754654])]
+    if k < 0.8:
+        return [(90.0 * rng.randrange(4) + rng.choice([-1, 0, 1]) * 10.0 ** rng.uniform(-9, -2)) % 360.0, rng.uniform(-90.0, 90.0)]
+    return [rng.uniform(0.0, 360.0), max(-90.0, min(90.0, rng.choice([0.0, 90.0, -90.0]) + rng.choice([-1, 0, 1]) * 10.0 ** rng.uniform(-9, -2)))]
+
+
+def rand_star_cover(rng, n):
+    """circles around arbitrary centres with probes on rays in every direction: (abstract case, star part).
+    Abstractly the centre is arc 0 and a probe the arc <<a,b>> from it (HiGcSep(<<0,0>>, <<a,b>>) = <<a,b>>)."""
+    out = []
+    for _ in range(n):
+        style = rng.random()
+        if style < 0.4:
+            rad = (0, rng.choice([1, 3, 5, 7, 9, 15, 31, 101]))
+        elif style < 0.85:
+            rad = (rng.choice([1, 2, 5, 10, 30, 45, 60, 89, rng.randrange(1, 90)]), rng.choice([-5, -3, -1, 1, 3, 5]))
+        else:
+            rad = (90, rng.choice([-1, -3, -7]))
+        ndir = rng.choice([8, 16, 24])
+        phi0 = rng.uniform(0.0, 360.0)
+        probes, dirs = [[0, 0]], [0.0]
+        for d in range(ndir):
+            phi = [0.0, 90.0, 180.0, 270.0][d] if d < 4 and rng.random() < 0.5 else (phi0 + 360.0 * d / ndir + rng.uniform(-3, 3)) % 360.0
+            for t in (-3, -1, 1, 3):
+                probes.append([rad[0], (rad[1] + t) // 2])
+                dirs.append(phi)
+            probes.append([rad[0] // 2, rng.randrange(0, 4)] if rad[0] else [0, max(0, (rad[1] - 1) // 4)])
+            dirs.append(phi)
+            probes.append([min(180, rad[0] + rng.choice([1, 2, 10, 45, 90])), rng.randrange(-3, 4)] if rng.random() < 0.7
+                          else [0, (rad[1] + 1) // 2 + rng.randrange(1, 40)] if rad[0] == 0 else [180, 0])
+            dirs.append(phi)
+        case = {"kind": "cover", "lat": "gc", "c": [0, 0], "rad": list(rad), "probes": probes}
+        out.append((case, {"centre": rand_centre(rng), "dirs": dirs}))
+    return out
+
+
+def rand_star_pairs(rng, n):
+    """one first-set point anywhere, second-set points on rays around it: every separation that is counted is exact"""
+    out = []
+    while len(out) < n:
+        if rng.random() < 0.5:
+            base, rho, nbin = (0, rng.choice([1, 3, 5])), rng.choice([3, 3, 5, 2, 7, 13, 21]), rng.randrange(1, 5)
+            mk = lambda: [0, rng.randrange(0, 25)]                                  # noqa
+        else:
+            base, rho, nbin = (rng.choice([0, 1, 1, 2, 5, 10, 20]), rng.choice([1, 3])), rng.choice([3, 3, 2, 5]), rng.randrange(1, 5)
+            A = [0, 1, 2, 3, 5, 7, 10, 20, 30, 45, 90, 120, 135, 150, 179, 180]
+            mk = lambda: (lambda a: [a, rng.randrange(0 if a == 0 else -4, 5 if a < 180 else 1)])(rng.choice(A))   # noqa
+        edges = [[base[0] * rho ** k, base[1] * rho ** k] for k in range(1, nbin + 2)]
+        if tuple(edges[-1]) > (180, 0) or abs(edges[-1][1]) > 30000:
+            continue
+        n2 = rng.choice([1, 3, 8, 20, 40])
+        p2 = [mk() for _ in range(n2)]
+        sk = rng.random()
+        scale = [] if sk < 0.4 else [rng.choice([1, 2, 3, 4])]
+        case = {"kind": "pairs", "lat": "gc", "p1": [[0, 0]], "p2": p2, "edges": edges, "scale": scale}
+        out.append((case, {"centre": rand_centre(rng), "dirs": [rng.uniform(0.0, 360.0) for _ in p2]}))
+    return out
+
+
 # =====================================================================================
 # bincount
 GC_EPS_PAIRS = ["1e-3", "1e-4", "1e-5", "1e-6", "1e-7"]
@@ -281,7 +352,7 @@ def pairs_eps_choices(case):
     return out
 
 
-def concretise_pairs(case, n, rng, B):
+def concretise_pairs(case, n, rng, B, star=None):
     out = []
     epss = pairs_eps_choices(case)
     if not epss:
@@ -292,6 +363,8 @@ def concretise_pairs(case, n, rng, B):
         unit = rng.choice([1, 1, 2, 1024, F(1, 8)])
         out.append({"abs": case, "circle": circle, "eps": eps, "unit": unit, "pick": rng.randrange(1 << 30),
                     "cap_pairs": B["cap_pairs"], "cap_span": B["cap_span"]})
+        if star is not None:
+            out[-1]["star"] = star
     return out
 
 
@@ -325,8 +398,12 @@ def run_pairs(job):
     eps = hl.EPS[job["eps"]] if lat == "gc" else None
     circle = hl.CIRCLES[job["circle"]]
     rng = random.Random(job["pick"])
-    ra1, dec1 = hl.points(lat, c["p1"], circle, eps)
-    ra2, dec2 = hl.points(lat, c["p2"], circle, eps)
+    if job.get("star"):
+        ra1, dec1 = [job["star"]["centre"][0]], [job["star"]["centre"][1]]
+        ra2, dec2 = hl.star_points(job["star"]["centre"], job["star"]["dirs"], c["p2"], eps)
+    else:
+        ra1, dec1 = hl.points(lat, c["p1"], circle, eps)
+        ra2, dec2 = hl.points(lat, c["p2"], circle, eps)
     rmin, rmax, nbin, sc = hl.bin_args(lat, c["edges"], c["scale"], eps, job["unit"])
     if sc is not None:
         sc = (sc[0] if rng.random() < 0.5 else np.array(sc)) if len(sc) == 1 else (np.array(sc) if rng.random() < 0.7 else list(sc))
@@ -462,11 +539,39 @@ def judge(ctx, items, what):
     return rejects
 
 
+def _check_star_mapping(seed, n=400):
+    """the refinement mapping of the star concretisation validates itself on every run: the longdouble
+    separation between the centre and star_point(centre, phi, t) must be t to 1e-12 degree (exit 2 otherwise)"""
+    ld = np.longdouble
+    d2r = (ld(4) * np.arctan(ld(1))) / ld(180)
+    rng = random.Random(seed * 101 + 3)
+    worst = 0.0
+    for _ in range(n):
+        cen = rand_centre(rng)
+        phi = rng.choice([0.0, 90.0, 180.0, 270.0, rng.uniform(0, 360)])
+        pos = (rng.choice([0, 0, 1, 30, 89, 90, 91, 179, 180, 181, 270, 359]), rng.randrange(-9, 10))
+        eps = hl.EPS[rng.choice(["1e-3", "4e-5", "1e-6"])]
+        ra, dec = hl.star_point(cen[0], cen[1], phi, pos, eps)
+        t = hl.gc_arc(pos, eps)
+        t = float(t if t <= 180 else 360 - t)
+        a1, d1, a2, d2 = [ld(x) * d2r for x in (cen[0], cen[1], ra, dec)]
+        v1 = np.array([np.cos(d1) * np.cos(a1), np.cos(d1) * np.sin(a1), np.sin(d1)])
+        v2 = np.array([np.cos(d2) * np.cos(a2), np.cos(d2) * np.sin(a2), np.sin(d2)])
+        cr = np.cross(v1, v2)
+        worst = max(worst, abs(float(np.arctan2(np.sqrt((cr * cr).sum()), (v1 * v2).sum()) / d2r) - t))
+    if not worst <= 1e-12:
+        raise MachineryError("star concretisation is off by %g degree" % worst)
+    return worst
+
+
 def _tlc_batch(ctx, jobs, width=4):
     """several independent TLC runs side by side (each is its own JVM)"""
+    n0 = len(ctx.tlc_runs)
     with ThreadPoolExecutor(width) as ex:
         futs = [ex.submit(lambda kw=kw: ctx.tlc("HtmIdsMC.tla", **kw)) for kw in jobs]
-        return [f.result() for f in futs]
+        res = [f.result() for f in futs]
+    ctx.tlc_runs[n0:] = sorted(ctx.tlc_runs[n0:], key=lambda r: r["what"])      # completion order is not deterministic
+    return res
 
 
 def _consts(B, **kw):
@@ -528,6 +633,7 @@ def run(ctx):
     if not cover_cases or not pairs_cases or {c["lat"] for c in cases} != {"gc", "rs"}:
         raise MachineryError("no cases exported (%d circles, %d pair problems)" % (len(cover_cases), len(pairs_cases)))
 
+    ctx.note(star_mapping_worst_deviation_deg=_check_star_mapping(ctx.seed))
     items_probe = {}        # one accepted record per kind for the binding self-test
 
     # ---- 2. lookup_id: code -> spec -------------------------------------------------------------
@@ -553,6 +659,8 @@ def run(ctx):
             jobsC += concretise_cover(c, B["cover_conc"], rng, B["cap_cover"])
         for c in rand_cover_cases(rng, B["cover_rand"], "gc", rs_pts) + rand_cover_cases(rng, B["cover_rs_rand"], "rs", rs_pts):
             jobsC += concretise_cover(c, 2, rng, B["cap_cover"])
+        for c, star in rand_star_cover(rng, B["cover_star"]):
+            jobsC += concretise_cover(c, 1, rng, B["cap_cover"], star=star)
         if not jobsC:
             raise MachineryError("no circle could be concretised")
         out = pmap(run_cover, jobsC)
@@ -581,12 +689,16 @@ def run(ctx):
             jobsP += concretise_pairs(c, 1, rng, B)
         for c in rand_pairs_cases(rng, B["pairs_rand"], "gc", rs_pts) + rand_pairs_cases(rng, B["pairs_rs_rand"], "rs", rs_pts):
             jobsP += concretise_pairs(c, 1, rng, B)
+        for c, star in rand_star_pairs(rng, B["pairs_star"]):
+            jobsP += concretise_pairs(c, 1, rng, B, star=star)
         out = pmap(run_pairs, jobsP)
         items = [(rec, meta, {"part": "pairs", "job": job}) for (rec, meta), job in zip(out, jobsP)]
         for rec, meta, rp in items:
             ctx.count({k: rec[k] for k in ("lat", "p1", "p2", "edges", "scale")})
         ctx.evaluations += 3 * len(items)
-        ctx.sample({"bincount": {k: items[0][0][k] for k in ("lat", "p1", "p2", "edges", "scale")}, "observed": items[0][0]["obs"]})
+        smp = next((it for it in items if len(it[0]["p2"]) >= 2 and it[0]["scale"] and any(sum(o["counts"]) > 0 for o in it[0]["obs"])), items[0])
+        ctx.sample({"bincount": {k: smp[0][k] for k in ("lat", "p1", "p2", "edges", "scale")}, "concretisation": {k: smp[2]["job"][k] for k in ("circle", "eps", "unit")},
+                    "call": {k: smp[1][k] for k in ("rmin", "rmax", "nbin", "scale_arg")}, "observed": smp[0]["obs"]})
         rej = judge(ctx, items, "judge pair counts against brute force (HtmIdsTrace)")
         n_pairs = len(items)
         if not any(sum(o["counts"]) > 0 for it in items for o in it[0]["obs"] if o["err"] == "none"):
@@ -639,12 +751,14 @@ def run(ctx):
     ctx.rule = ("ids: every position of the great-circle lattice on %d great circles (equator, meridians, 3 tilted), the rational "
                 "sphere (d<=15), poles/octant corners/seam and %d seeded random positions, each looked up at every depth 0..20 as "
                 "array element and as scalar (%d positions); circles: every (centre, radius) of the %s catalogue on both lattices "
-                "x %d concretisations (circle, eps, depth 1..12 within %.0e trixels) + %d seeded circles, >= 55 probes each (%d "
-                "circle records); pair counts: every (p2, p1, bins, scale) exported from HtmIdsMC.tla for |p2|<=%d, |p1|<=%d or "
-                "p1=p2 on both lattices + %d seeded problems up to 10 x 30 points (%d problems, 4 ways of calling each); a case "
+                "x %d concretisations (circle, eps, depth 1..12 within %.0e trixels) + %d seeded circles (of which %d around arbitrary, "
+                "also off-lattice, centres with probes on 8..24 rays), 37..414 probes each (%d circle records); pair counts: every (p2, p1, bins, scale) exported from HtmIdsMC.tla for |p2|<=%d, |p1|<=%d or "
+                "p1=p2 on both lattices + %d seeded problems up to 10 x 30 points (of which %d one-to-many around arbitrary centres; %d problems, 4 ways "
+                "of calling each); a case "
                 "is distinct by its abstract record + concretisation" %
                 (len(hl.CIRCLES), B["n_random_pts"], n_lookup, B["Scope"], B["cover_conc"], B["cap_cover"],
-                 B["cover_rand"] + B["cover_rs_rand"], n_cover, B["MaxN2"], B["MaxN1"], B["pairs_rand"] + B["pairs_rs_rand"], n_pairs))
+                 B["cover_rand"] + B["cover_rs_rand"] + B["cover_star"], B["cover_star"], n_cover, B["MaxN2"], B["MaxN1"],
+                 B["pairs_rand"] + B["pairs_rs_rand"] + B["pairs_star"], B["pairs_star"], n_pairs))
     ctx.exhaustive = True
     ctx.note(bounds={k: v for k, v in B.items()}, exported_circles=len(cover_cases), exported_pair_problems=len(pairs_cases),
              lookup_positions=n_lookup, circle_records=n_cover, pair_records=n_pairs)
@@ -653,6 +767,10 @@ def run(ctx):
         "meridians) or carry <= 3e-14 degree (tilted circles); a probe is at least eps/2 >= 2e-5 degree from every circle boundary and "
         "a pair at least 1e-8 relative from every bin edge it is not exactly on, so inside/outside and the bin are decided by integer "
         "arithmetic; positions exactly on a boundary / edge are unconstrained",
+        "star cases: the centre is any double (ra, dec); probes / second-set points are placed a + b*eps degrees from it along rays "
+        "(longdouble, validated each run to 1e-12 degree); only separations from the centre enter the judged clauses",
+        "pair counts: the largest search angle rmax/scale is kept within 1e-4..180 degrees (the statement's circle radii; below ~1e-6 "
+        "degree cos(angle) rounds to 1 and the library's circle degenerates - not judged)",
         "rational sphere: cosines of separations and radii are exact rationals (one logarithmic bin there: a geometric progression of "
         "angles with rational cosines does not exist)",
         "intersect lists longer than %d ids are projected onto the probes by numpy.isin; shorter ones are written out and the "
